@@ -6,7 +6,8 @@ ROOT="$(cd "$(dirname "$0")/.." && pwd)"
 BASE=/tmp/c05_selftest_base
 git -C /repo worktree remove --force $BASE 2>/dev/null
 git -C /repo worktree add -q --detach $BASE HEAD || exit 3
-(cd $BASE && git apply "$ROOT/proposed_fixes/C05.diff") || exit 3
+# the proposed fix is part of /repo since the merge; apply it only where it still applies
+(cd $BASE && git apply --check "$ROOT/proposed_fixes/C05.diff" 2>/dev/null && git apply "$ROOT/proposed_fixes/C05.diff")
 S=sharepoint2text/parsing/extractors/serialization.py
 fail=0
 one() {  # name expected-exit file old new
